@@ -2,9 +2,11 @@ package props
 
 import (
 	"bytes"
+	"encoding/binary"
 	"encoding/hex"
 	"encoding/json"
 	"fmt"
+	"strings"
 	"time"
 
 	"gitee.com/Trisia/gotlcp/dtlcp"
@@ -12,6 +14,7 @@ import (
 	"gitee.com/Trisia/gotlcp/vs"
 
 	"verifsim/ref"
+	"verifsim/simnet"
 )
 
 // C04 — key schedule and record protection match an independent derivation.
@@ -319,6 +322,9 @@ func (c04) Run(c *Case, src *vs.Src) *Result {
 			r.Stat("nontrivial", 1)
 		}
 	}
+	if ok && p.Stack == DTLCP {
+		c04HeaderProbe(c, src, p, env, cc, sc, r, sigp)
+	}
 	r.Outcome = outcome
 	r.Trivial = r.Stats["nontrivial"] < 2
 	pj, _ := json.Marshal(p)
@@ -347,4 +353,121 @@ func clipSig(s string) string {
 		return s[:60]
 	}
 	return s
+}
+
+// c04HeaderProbe is the receiving side of "sequence number, epoch, type, version and length are authenticated"
+// on the datagram stack: a third (resumed) connection sends three records in one direction; the network
+// first delivers copies of the first one with each header field changed in turn, then the genuine three.
+// The receiver (ReadFrom or Read, drawn) must hand over exactly the three genuine payloads.
+func c04HeaderProbe(c *Case, src *vs.Src, p *c04Params, env *Env, cc, sc *EPConf, r *Result, sigp string) {
+	dirS2C := src.Intn(2) == 1
+	api := pickStr(src, []string{"readfrom", "read"})
+	w := NewWorld(c.Seed+7, src)
+	w.K.MaxElapsed = 60 * time.Second
+	env.W = w
+	pair := NewPair(DTLCP, env, cc, sc, "cp", "sp", "client:1", "server:443")
+	sender, receiver := pair.DC, pair.DS
+	sendDir := simnet.DirC2S
+	if dirS2C {
+		sender, receiver = pair.DS, pair.DC
+		sendDir = simnet.DirS2C
+	}
+	holding := false
+	var held []*simnet.Dgram
+	pair.Net.Hook = func(d *simnet.Dgram) []*simnet.Dgram {
+		if holding && d.Dir == sendDir {
+			held = append(held, d)
+			return []*simnet.Dgram{}
+		}
+		return nil
+	}
+	payloads := [][]byte{[]byte("probe-record-0"), []byte("probe-record-1"), []byte("probe-record-2")}
+	fields := []string{"type", "version", "epoch+1", "epoch-1", "seq", "length"}
+	var sErr, rErr, endErr error
+	var got []string
+	handshook, sentAll, injected := 0, false, false
+	w.Go("sender", func() {
+		if sErr = sender.Handshake(); sErr != nil {
+			return
+		}
+		handshook++
+		vs.Block(func() bool { return handshook == 2 }, time.Time{})
+		holding = true
+		for _, b := range payloads {
+			if _, err := sender.WriteTo(b, sender.RemoteAddr()); err != nil {
+				sErr = err
+				break
+			}
+		}
+		sentAll = true
+	})
+	w.Go("network", func() {
+		vs.Block(func() bool { return sentAll || sErr != nil }, time.Time{})
+		if len(held) == 3 {
+			k := 0
+			put := func(b []byte) {
+				k++
+				pair.Net.Inject(&simnet.Dgram{Data: b, From: held[0].From, To: held[0].To, Dir: sendDir, At: vs.Now().Add(time.Duration(k) * time.Millisecond)})
+			}
+			for _, f := range fields {
+				b := append([]byte(nil), held[0].Data...)
+				switch f {
+				case "type":
+					b[0] = 22
+				case "version":
+					b[2] ^= 0x02
+				case "epoch+1":
+					binary.BigEndian.PutUint16(b[3:5], binary.BigEndian.Uint16(b[3:5])+1)
+				case "epoch-1":
+					binary.BigEndian.PutUint16(b[3:5], binary.BigEndian.Uint16(b[3:5])-1)
+				case "seq":
+					b[10] += 9
+				case "length":
+					binary.BigEndian.PutUint16(b[11:13], binary.BigEndian.Uint16(b[11:13])-1)
+					b = b[:len(b)-1]
+				}
+				put(b)
+			}
+			for _, d := range held {
+				put(d.Data)
+			}
+		}
+		injected = true
+	})
+	w.Go("receiver", func() {
+		if rErr = receiver.Handshake(); rErr != nil {
+			return
+		}
+		handshook++
+		vs.Block(func() bool { return injected }, time.Time{})
+		buf := make([]byte, 2048)
+		for len(got) < 20 {
+			receiver.SetReadDeadline(vs.Now().Add(2 * time.Second))
+			var n int
+			var err error
+			if api == "readfrom" {
+				n, _, err = receiver.ReadFrom(buf)
+			} else {
+				n, err = receiver.Read(buf)
+			}
+			if err != nil {
+				endErr = err
+				return
+			}
+			got = append(got, string(buf[:n]))
+		}
+	})
+	reason, unf := w.Run()
+	w.Finish(r, sigp)
+	sender.Close()
+	receiver.Close()
+	if reason != vs.Done || sErr != nil || rErr != nil || len(held) != 3 {
+		r.Violate("probe-setup", sigp+" header-probe setup", "header probe: run ended with %q (unfinished %v), sender %v, receiver %v, %d records captured", reason, unf, sErr, rErr, len(held))
+		return
+	}
+	want := []string{string(payloads[0]), string(payloads[1]), string(payloads[2])}
+	if strings.Join(got, "|") != strings.Join(want, "|") || !isTimeout(endErr) {
+		r.Violate("header-auth", sigp+" header-field-not-authenticated "+api, "after copies of the first record with type / version / epoch / sequence number / length changed in the header, followed by the three genuine records, %s delivered %q and ended with %v; expected exactly the three genuine payloads and then the read deadline", api, got, endErr)
+	}
+	r.Stat("header_probe", 1)
 }
